@@ -20,14 +20,19 @@ fn expected_names(m: &ModelGame) -> Vec<&'static str> {
 	v
 }
 
-const SAFE_NAMES: [&str; 12] = ["README", "notes.txt", "extra.json", "frames.arrow.bak", "start.raw.orig", "x/y/z.bin", "peppi.json.old", "thumb.png", "a", "end.raw~", "metadata.yaml", "dir/inner.dat"];
+/// names whose final path component is not one the reader dispatches on (incl. members without a
+/// final component such as `./` written by `tar cf x.tar .`, and non-UTF-8 names)
+const SAFE_NAMES: [&[u8]; 22] = [
+	b"README", b"notes.txt", b"extra.json", b"frames.arrow.bak", b"start.raw.orig", b"x/y/z.bin", b"peppi.json.old", b"thumb.png", b"a", b"end.raw~", b"metadata.yaml",
+	b"dir/inner.dat", b"./", b".", b"..", b"extras/", b"foo/..", b"/", b"caf\xe9.txt", b"\xff\xfe", b"./.hidden", b"PEPPI.JSON",
+];
 
 struct Case {
 	m: ModelGame,
 	comp: Comp,
 	hash: bool,
 	/// (index of the known entry it is placed before, name, data)
-	extras: Vec<(usize, String, Vec<u8>)>,
+	extras: Vec<(usize, Vec<u8>, Vec<u8>)>,
 }
 
 fn gen_case(dna: &[u8], cfg: &crate::gen::GenCfg) -> Case {
@@ -39,13 +44,13 @@ fn gen_case(dna: &[u8], cfg: &crate::gen::GenCfg) -> Case {
 	let mut extras = Vec::new();
 	for _ in 0..nextra {
 		let pos = d.below(8);
-		let name = if d.u8() < 200 { SAFE_NAMES[d.below(SAFE_NAMES.len())].to_string() } else { format!("u{}.dat", d.u16()) };
+		let name: Vec<u8> = if d.u8() < 200 { SAFE_NAMES[d.below(SAFE_NAMES.len())].to_vec() } else { format!("u{}.dat", d.u16()).into_bytes() };
 		let len = match d.u8() {
 			0..=49 => 0,
 			50..=199 => d.below(600),
 			_ => d.below(2001),
 		};
-		let mut data = vec![0u8; len];
+		let mut data = vec![0u8; if name.ends_with(b"/") || name == b"." || name == b".." { 0 } else { len }];
 		crate::gen::SplitMix(d.u32() as u64).fill(&mut data);
 		extras.push((pos, name, data));
 	}
@@ -70,12 +75,12 @@ fn check(ctx: &Ctx, c: &Case, label: &str, counting: bool) -> Result<(), Fail> {
 			h.push(c.comp as u8);
 			for (p, n, dta) in &c.extras {
 				h.push(*p as u8);
-				h.extend_from_slice(n.as_bytes());
+				h.extend_from_slice(n);
 				h.extend_from_slice(&(dta.len() as u32).to_le_bytes());
 			}
 			ctx.nontrivial(rt::hash_bytes(&h));
 		}
-		ctx.sample_k(label, 4, || json!({"model": m.summary(), "compression": c.comp.name(), "expected_entries": want, "extra_entries": c.extras.iter().map(|(p, n, d)| json!([p, n, d.len()])).collect::<Vec<_>>()}));
+		ctx.sample_k(label, 4, || json!({"model": m.summary(), "compression": c.comp.name(), "expected_entries": want, "extra_entries": c.extras.iter().map(|(p, n, d)| json!([p, String::from_utf8_lossy(n), d.len()])).collect::<Vec<_>>()}));
 	}
 	let detail = json!({"model": m.summary(), "compression": c.comp.name()});
 	let g = rt::slp_read(&bytes, false, c.hash).expect_ok("slippi::read").map_err(|f| f.with_file("slp", &bytes))?;
@@ -145,14 +150,14 @@ fn check(ctx: &Ctx, c: &Case, label: &str, counting: bool) -> Result<(), Fail> {
 	}
 	// unknown entries are ignored
 	if !c.extras.is_empty() {
-		let mut list: Vec<(String, Vec<u8>)> = Vec::new();
+		let mut list: Vec<(Vec<u8>, Vec<u8>)> = Vec::new();
 		for (i, e) in entries.iter().enumerate() {
 			for (pos, n, d) in &c.extras {
 				if *pos % entries.len() == i {
 					list.push((n.clone(), d.clone()));
 				}
 			}
-			list.push((e.name.clone(), entry_data(&p, e).to_vec()));
+			list.push((e.name.clone().into_bytes(), entry_data(&p, e).to_vec()));
 		}
 		let spliced = rebuild(&list);
 		let g3 = match rt::slpp_read(&spliced, false) {
@@ -168,13 +173,13 @@ fn check(ctx: &Ctx, c: &Case, label: &str, counting: bool) -> Result<(), Fail> {
 /// peppi.json rewritten with format version `v`: rejected below the minimum, accepted otherwise
 fn version_gate(ctx: &Ctx, v: (u8, u8, u8), counting: bool) -> Result<(), Fail> {
 	thread_local! {
-		static BASE: (Vec<(String, Vec<u8>)>, Vec<u8>) = {
+		static BASE: (Vec<(Vec<u8>, Vec<u8>)>, Vec<u8>) = {
 			let m = crate::gen::simple_model((3, 16, 0), &[(0, false), (1, true)], 2, 5, crate::gen::Pattern::Random, 1, true);
 			let b = m.encode();
 			let g = match rt::slp_read(&b, false, true) { Out::Ok(g) => g, _ => panic!("base") };
 			let p = match rt::slpp_write(g, Comp::None) { Out::Ok(p) => p, _ => panic!("base") };
 			let (entries, _) = walk_tar(&p).unwrap();
-			(entries.iter().map(|e| (e.name.clone(), entry_data(&p, e).to_vec())).collect(), p)
+			(entries.iter().map(|e| (e.name.clone().into_bytes(), entry_data(&p, e).to_vec())).collect(), p)
 		};
 	}
 	if counting {
@@ -208,7 +213,7 @@ const GATE: [(u8, u8, u8); 14] = [(0, 0, 0), (1, 0, 0), (1, 255, 255), (1, 9, 9)
 
 fn forced(i: usize) -> Case {
 	let (m, comp, hash, _) = super::c02::forced_model_pub(i);
-	Case { m, comp, hash, extras: if i % 2 == 0 { vec![(i % 8, SAFE_NAMES[i % SAFE_NAMES.len()].to_string(), vec![0xEE; i % 700])] } else { vec![] } }
+	Case { m, comp, hash, extras: if i % 2 == 0 { let n = SAFE_NAMES[(i / 2) % SAFE_NAMES.len()].to_vec(); let dl = if n.ends_with(b"/") || n == b"." || n == b".." { 0 } else { i % 700 }; vec![(i % 8, n, vec![0xEE; dl])] } else { vec![] } }
 }
 
 pub fn case(ctx: &Ctx, kind: &str, params: &Value, counting: bool) -> Result<(), Fail> {
